@@ -11,7 +11,9 @@ import (
 	"os"
 	"os/exec"
 	"strconv"
+	"strings"
 	"time"
+	"unicode/utf8"
 
 	"gitlab.com/aquachain/aquachain/p2p"
 	"gitlab.com/aquachain/aquachain/p2p/discover"
@@ -157,8 +159,22 @@ func (v *serverVictim) died(d time.Duration) (bool, error) {
 	}
 }
 
-func runDiscReasonLattice(c *fw.Ctx) {
-	r := c.Rand("disc-reason")
+// sepItem is one attack on the separate server.
+type sepItem struct {
+	id     string
+	input  interface{}
+	note   string
+	cause  string // stable class for a death signature
+	what   string // prose for the violation text
+	attack func(e *srvEnv, r *fw.Rand) (inconclusive bool)
+	counts []string
+}
+
+// runOnSeparateServer: for each item, the server (a process of its own,
+// respawned after a death) must serve a peer before the attack, be alive after
+// it, and admit and serve a fresh peer.
+func runOnSeparateServer(c *fw.Ctx, label string, items []sepItem) {
+	r := c.Rand(label)
 	seed := r.Uint64()
 	var v *serverVictim
 	respawns := 0
@@ -166,7 +182,7 @@ func runDiscReasonLattice(c *fw.Ctx) {
 		if v != nil {
 			return true
 		}
-		if respawns > 12 {
+		if respawns > 40 {
 			return false
 		}
 		respawns++
@@ -175,7 +191,7 @@ func runDiscReasonLattice(c *fw.Ctx) {
 			c.Inconclusive("server_victim_not_ready")
 			return false
 		}
-		c.Count("disc_reason_victim_started")
+		c.Count(label + "_victim_started")
 		return true
 	}
 	defer func() {
@@ -183,67 +199,47 @@ func runDiscReasonLattice(c *fw.Ctx) {
 			v.stop()
 		}
 	}()
-	cases := discReasonLattice()
-	var all []discCase
-	for _, stage := range []string{"established", "instead_of_hello"} {
-		for _, dc := range cases {
-			dc.Stage = stage
-			all = append(all, dc)
-		}
+	drop := func() {
+		v.stop()
+		v = nil
 	}
-	for i, dc := range all {
-		dc := dc
-		c.Case(fmt.Sprintf("server-disc-%d", i), dc, func() {
+	for _, it := range items {
+		it := it
+		c.Case(it.id, it.input, func() {
 			if !ensure() {
 				return
 			}
 			e := v.env
-			// the server must be serving before the message is sent
 			w0, stage := e.fullPeer(c, r, 5)
 			if stage != "" {
-				c.Note("separate server not serving before the message: %s", stage)
+				c.Note("separate server not serving before the attack: %s", stage)
 				c.Inconclusive("server_victim_not_serving")
-				v.stop()
-				v = nil
+				drop()
 				return
 			}
 			ok0, _ := e.wireAlive(w0, false)
 			w0.conn.Close()
 			if !ok0 {
 				c.Inconclusive("server_victim_not_serving")
-				v.stop()
-				v = nil
+				drop()
 				return
 			}
-			hv := uint64(4 + i%2)
-			c.Note("discMsg payload %s (%s, %s) to separate server %s", dc.Payload, dc.Name, dc.Stage, e.addr)
-			if dc.Stage == "established" {
-				w, stage := e.fullPeer(c, r, hv)
-				if stage != "" {
-					c.Inconclusive("server_victim_not_serving")
-					return
-				}
-				w.send(p2p.VerifDiscMsg, dc.payload)
-				w.readUntil(func(uint64, []byte) bool { return false }, 50) // until the server ends the connection
-				w.conn.Close()
-			} else {
-				w, stage := e.connect(r)
-				if stage != "" {
-					c.Inconclusive("server_victim_not_serving")
-					return
-				}
-				// in place of the hello
-				w.send(p2p.VerifDiscMsg, dc.payload)
-				w.readUntil(func(uint64, []byte) bool { return false }, 5)
-				w.conn.Close()
+			c.Note("%s -> separate server %s", it.note, e.addr)
+			if it.attack(e, r) {
+				c.Inconclusive("server_victim_not_serving")
+				return
 			}
-			c.Count("disc_reason_lattice_sent")
-			c.Count("disc_" + dc.Stage + "_" + dc.Class)
-			// process alive, peer released (a fresh peer with a new key is admitted
-			// and served: MaxPeers would not be the limit, a dead run loop would)
-			if dead, werr := v.died(300 * time.Millisecond); dead {
-				reportServerDeath(c, v, dc, werr)
+			for _, k := range it.counts {
+				c.Count(k)
+			}
+			death := func(werr error) {
+				c.Count(label + "_server_died")
+				c.Violate("process_died", "Server", it.cause,
+					fmt.Sprintf("%s ended the process running p2p.Server (%v):\n%s", it.what, werr, truncateStr(v.stderr.String(), 3500)))
 				v = nil
+			}
+			if dead, werr := v.died(300 * time.Millisecond); dead {
+				death(werr)
 				return
 			}
 			w1, stage := e.fullPeer(c, r, 5)
@@ -253,27 +249,187 @@ func runDiscReasonLattice(c *fw.Ctx) {
 				w1.conn.Close()
 			}
 			if alive {
-				c.Count("disc_reason_server_survived")
+				c.Count(label + "_server_survived")
 				return
 			}
 			if dead, werr := v.died(20 * time.Second); dead {
-				reportServerDeath(c, v, dc, werr)
-				v = nil
+				death(werr)
 				return
 			}
-			c.Note("separate server alive but not serving after the message: %s", stage)
-			c.Inconclusive("server_victim_silent_after_disc")
-			v.stop()
-			v = nil
+			c.Note("separate server alive but not serving after the attack: %s", stage)
+			c.Inconclusive("server_victim_silent_after_attack")
+			drop()
 		})
 	}
 }
 
-func reportServerDeath(c *fw.Ctx, v *serverVictim, dc discCase, werr error) {
-	c.Count("disc_reason_server_died")
-	c.Violate("process_died", "Server", dc.Class,
-		fmt.Sprintf("a devp2p disconnect message (code 0x01, payload %s, %s, %s peer) ended the process running p2p.Server (%v):\n%s",
-			dc.Payload, dc.Name, dc.Stage, werr, truncateStr(v.stderr.String(), 3500)))
+func runDiscReasonLattice(c *fw.Ctx) {
+	var items []sepItem
+	i := 0
+	for _, stage := range []string{"established", "instead_of_hello"} {
+		for _, dc := range discReasonLattice() {
+			dc := dc
+			dc.Stage = stage
+			hv := uint64(4 + i%2)
+			items = append(items, sepItem{
+				id: fmt.Sprintf("server-disc-%d", i), input: dc, cause: dc.Class,
+				note:   fmt.Sprintf("discMsg payload %s (%s, %s)", dc.Payload, dc.Name, dc.Stage),
+				what:   fmt.Sprintf("a devp2p disconnect message (code 0x01, payload %s, %s, %s peer)", dc.Payload, dc.Name, dc.Stage),
+				counts: []string{"disc_reason_lattice_sent", "disc_" + dc.Stage + "_" + dc.Class},
+				attack: func(e *srvEnv, r *fw.Rand) bool {
+					if dc.Stage == "established" {
+						w, stage := e.fullPeer(c, r, hv)
+						if stage != "" {
+							return true
+						}
+						w.send(p2p.VerifDiscMsg, dc.payload)
+						w.readUntil(func(uint64, []byte) bool { return false }, 50) // until the server ends the connection
+						w.conn.Close()
+						return false
+					}
+					w, stage := e.connect(r)
+					if stage != "" {
+						return true
+					}
+					w.send(p2p.VerifDiscMsg, dc.payload) // in place of the hello
+					w.readUntil(func(uint64, []byte) bool { return false }, 5)
+					w.conn.Close()
+					return false
+				},
+			})
+			i++
+		}
+	}
+	runOnSeparateServer(c, "disc_reason", items)
+}
+
+// ---- acceptable hellos with hostile client names ----------------------------------------------
+
+type helloName struct {
+	Label string `json:"label"`
+	Hex   string `json:"name_hex"`
+	Bytes int    `json:"bytes"`
+	Runes int    `json:"runes"`
+	name  string
+}
+
+func mkName(label, name string) helloName {
+	return helloName{Label: label, Hex: hx([]byte(name)), Bytes: len(name), Runes: utf8.RuneCountInString(name), name: name}
+}
+
+func isASCII(s string) bool {
+	for i := 0; i < len(s); i++ {
+		if s[i] >= 0x80 {
+			return false
+		}
+	}
+	return true
+}
+
+func helloNames(r *fw.Rand) []helloName {
+	rep := strings.Repeat
+	out := []helloName{
+		mkName("ascii_100", rep("a", 100)),
+		mkName("2byte_runes_82B", rep("\u0416", 41)+"/v1.2.3/linux-amd64/go1.24"),
+		mkName("2byte_runes_82B_bare", rep("\u0416", 41)),
+		mkName("3byte_runes_81B", rep("\u4e16", 27)),
+		mkName("4byte_runes_84B", rep("\U0001d11e", 21)),
+		mkName("ascii_80B", rep("b", 80)),
+		mkName("ascii_81B", rep("b", 81)),
+		mkName("boundary_81B", rep("c", 79)+"\u0416"),
+		mkName("rune_split_at_80", rep("c", 79)+"\u4e16"),
+		mkName("rune_split_at_80_4byte", rep("c", 78)+"\U0001d11e"+"tail"),
+		mkName("invalid_utf8_120B", rep("\xff\xc0\x80\xfe", 30)),
+		mkName("lone_continuation_bytes_90B", rep("\x80\xbf", 45)),
+		mkName("long_word_then_space", rep("\u0416", 45)+" rest of the name"),
+		mkName("space_first", " "+rep("\u4e16", 40)),
+		mkName("empty", ""),
+		mkName("multibyte_1900B", rep("\u4e16", 633)),
+		mkName("multibyte_73_runes_over_80B", rep("\u0416", 73)),
+		mkName("multibyte_80_runes", rep("\u0416", 80)),
+		mkName("multibyte_81_runes", rep("\u0416", 81)),
+	}
+	elems := []string{"a", "Z", "/", "-", "\u0416", "\u00e9", "\u4e16", "\u20ac", "\U0001d11e", "\U0001f600", "\x80", "\xff", " "}
+	for i := 0; i < 8; i++ {
+		want := r.Range(60, 300)
+		var b strings.Builder
+		bias := r.Intn(3) // 0: mostly ASCII, 1: mostly multi-byte, 2: mixed
+		for b.Len() < want {
+			var e string
+			switch {
+			case bias == 0 && r.Chance(4, 5):
+				e = elems[r.Intn(4)]
+			case bias == 1 && r.Chance(4, 5):
+				e = elems[4+r.Intn(6)]
+			default:
+				e = elems[r.Intn(len(elems))]
+			}
+			if e == " " && r.Chance(3, 4) {
+				continue // spaces end the "first word": keep them rare
+			}
+			b.WriteString(e)
+		}
+		out = append(out, mkName("random_mixed_width", b.String()))
+	}
+	return out
+}
+
+func runHelloNames(c *fw.Ctx) {
+	rounds := c.Pick(1, 4)
+	var items []sepItem
+	n := 0
+	for round := 0; round < rounds; round++ {
+		rn := c.Rand("hello-names", fmt.Sprint(round))
+		for _, hn := range helloNames(rn) {
+			hn := hn
+			class := "hello_name_short"
+			switch {
+			case hn.Bytes > 80 && !isASCII(hn.name):
+				class = "hello_name_multibyte_over_80_bytes"
+			case hn.Bytes > 80:
+				class = "hello_name_ascii_over_80_bytes"
+			case !isASCII(hn.name):
+				class = "hello_name_multibyte"
+			}
+			counts := []string{"server_hello_names_presented"}
+			if hn.Bytes > 80 {
+				counts = append(counts, "server_hello_name_over_80_bytes")
+			}
+			if !isASCII(hn.name) {
+				counts = append(counts, "server_hello_name_multibyte")
+			}
+			if !utf8.ValidString(hn.name) {
+				counts = append(counts, "server_hello_name_invalid_utf8")
+			}
+			items = append(items, sepItem{
+				id: fmt.Sprintf("server-hello-name-%d", n), input: hn, cause: class,
+				note:   fmt.Sprintf("hello with client name %s (%s, %d bytes, %d runes)", hn.Hex, hn.Label, hn.Bytes, hn.Runes),
+				what:   fmt.Sprintf("an otherwise acceptable devp2p hello (version 5, capability aqua/64, own node id) whose client name is %q (%s: %d bytes, %d runes)", hn.name, hn.Label, hn.Bytes, hn.Runes),
+				counts: counts,
+				attack: func(e *srvEnv, r *fw.Rand) bool {
+					w, stage := e.connect(r)
+					if stage != "" {
+						return true
+					}
+					defer w.conn.Close()
+					_, err := w.hello(&p2p.VerifProtoHandshake{Version: 5, Name: hn.name, Caps: []p2p.Cap{{Name: "aqua", Version: 64}}, ID: pubID(w.key)})
+					if err != nil {
+						c.Count("server_hello_name_refused")
+						return false
+					}
+					// admitted peers get the aqua status; refused ones a disconnect or the end of the stream
+					if ok, _ := w.readUntil(func(code uint64, _ []byte) bool { return code == baseLen+aquaStatus }, 10); ok {
+						c.Count("server_hello_name_admitted")
+					} else {
+						c.Count("server_hello_name_refused")
+					}
+					return false
+				},
+			})
+			n++
+		}
+	}
+	runOnSeparateServer(c, "hello_name", items)
 }
 
 // ---- in process: a disconnect in place of the hello ------------------------------------------
